@@ -38,7 +38,7 @@ QA_Epochs  == {0, 1, 257}
 QE_Epochs  == {1, 257}
 QV_Epochs  == {1}
 Q_Size1    == {1}
-QV_Signers == {{"ALPHA"}, {"n1"}, {"n2"}}
+QV_Signers == {{"ALPHA"}, {"n1"}}
 Q_Peers    == {"p1", "p2"}
 Q_Cids1    == {"c1"}
 Q_Cids     == {"c1", "c2"}
@@ -101,9 +101,8 @@ TypeOK   == /\ \A x \in st.repC : x.c >= 1
 
 \* ---- scenario generation
 One(X) == IF X = {} THEN {} ELSE {RandomElement(X)}
-\* signer sets are drawn with a bias towards the sets that make calls succeed
-S_SignerBias == <<{"ALPHA"}, {"ALPHA"}, {"ALPHA"}, {"ALPHA"}, {"ALPHA"}, {"n1"}, {"n1"}, {"n2"}, {"n2"}, {"n3"}, {"CMT"}, {"ALPHA", "n1"}>>
-OneS(X) == IF RandomElement(1..4) = 1 THEN One(X) ELSE {S_SignerBias[RandomElement(1..Len(S_SignerBias))]}
+\* signer sets are drawn with a bias towards the set that makes the call succeed
+OneS(X, h) == IF RandomElement(1..10) <= 7 THEN {h} ELSE One(X)
 \* every scenario starts with an environment in which estimations and audit results can be accepted
 Prelude == <<
   [act |-> "cn.put", S |-> {"ALPHA"}, e |-> 0, x |-> 0, a |-> "c1", b |-> Nil, v |-> Nil, ks |-> <<>>],
@@ -115,7 +114,8 @@ Prelude == <<
   [act |-> "ir.set", S |-> {"CMT"}, e |-> 0, x |-> 0, a |-> Nil, b |-> Nil, v |-> Nil, ks |-> <<"n1", "n2">>] >>
 PreludeSt == [EmptySt EXCEPT !.env = [epoch |-> 2, cand |-> {"n1", "n2"}, cur |-> {"n1", "n2"}, prev |-> {"n1", "n2"},
                                       cnts |-> {"c1", "c2"}, dead |-> {}, ir |-> {"n1", "n2"}]]
-SimInit == /\ U = MCU /\ st = PreludeSt /\ api = ApiOf(PreludeSt) /\ ev = InitEv /\ g = GInit /\ hist = Prelude
+\* (the generator needs no query sweep: the driver builds the universe of every scenario itself)
+SimInit == /\ U = [MCU EXCEPT !.qe = {0, 1}] /\ st = PreludeSt /\ api = ApiOf(PreludeSt) /\ ev = InitEv /\ g = GInit /\ hist = Prelude
 Strip(e) == [act |-> e.act, S |-> e.S, e |-> e.e, x |-> e.x, a |-> e.a, b |-> e.b, v |-> e.v, ks |-> e.ks]
 SimNext == NextOf(One, OneS) /\ g' = GNext(g, ev') /\ hist' = Append(hist, Strip(ev'))
 SimSpec == SimInit /\ [][SimNext]_mcvars
